@@ -41,6 +41,16 @@ def probe(ctx, binary, N, C):
 def run(ctx):
     confs = [(4, 1, 3, 3), (7, 2, 4, 3)] if not ctx.thorough else [(4, 1, 4, 3), (7, 2, 4, 3), (10, 3, 5, 3)]
     binary = ctx.go_test_bin("core/store/ledgerstore", harness="b_sig_ledger")
+    if ctx.replay_in:
+        import json, sys
+        rec = json.load(open(ctx.replay_in))["replay"]
+        obs, _ = run_bin(ctx, binary, rec["N"], rec["C"], [{"bk": rec["bk"], "sigs": rec["sigs"]}], "replay") if binary else (None, None)
+        if obs is None:
+            sys.exit(2)
+        nvalid = len({g[1] for g in rec["sigs"] if g[0] == "g" and 1 <= g[1] <= rec["N"]})
+        bad = obs[0]["acc"] and nvalid < rec["C"] + 1
+        print("REPLAY property=C32 %s: accepted=%s distinct valid member signatures=%d, required %d" % ("VIOLATION reproduced" if bad else "not reproduced", obs[0]["acc"], nvalid, rec["C"] + 1))
+        sys.exit(1 if bad else 0)
     nexec = nacc = nunsound = cand = 0
     per = {}
     if binary:
@@ -54,7 +64,7 @@ def run(ctx):
             name = "SigHeader_L%d.cfg" % N
             # design: verify C+1 signatures against distinct keys -> the property is an invariant
             dcfg = sc.hdr_cfg(N, C, C + 1, C + 1, 0, False, "ledger", maxbk, maxsigs, "LedgerSound", False, outs=1 if maxbk <= 4 else 0)
-            ccfg = sc.hdr_cfg(N, C, sv, md, 0, True, "ledger", maxbk, maxsigs, "LedgerSoundUpTo", True, outs=1 if maxbk <= 4 else 0)
+            ccfg = sc.hdr_cfg(N, C, sv, md, 0, False, "ledger", maxbk, maxsigs, "LedgerSoundUpTo", True, outs=1 if maxbk <= 4 else 0)
             d, (r, rows) = sc.parallel(
                 lambda: sc.run_tlc_plain(ctx, "SigHeader_MC", "d" + name, "design N=%d: LedgerSound" % N, files={"d" + name: dcfg}),
                 lambda: sc.run_tlc_rows(ctx, "SigHeader_MC", name, files={name: ccfg}))
